@@ -204,7 +204,7 @@ def read_lines(p):
 
 
 def run_model(entry, cases_path, out_path, timeout=1800):
-    rc, out, dt = sh('%s %s %s > %s' % (os.path.join(BUILD, 'ocaml', 'model'), entry, cases_path, out_path), timeout=timeout)
+    rc, out, dt = sh('ulimit -s unlimited 2>/dev/null; %s %s %s > %s' % (os.path.join(BUILD, 'ocaml', 'model'), entry, cases_path, out_path), timeout=timeout)
     return rc == 0, out
 
 
